@@ -230,6 +230,7 @@ def run(repo: Repo, rep: Report, tier: str) -> None:
     rep.rule("codec-flags", "every encode / decode call takes all three flags from one transfer-syntax object (C25's rule)")
     delegate(repo, rep, tier, "C25", ("codec-flags",), "codec-flags", "the data set is not encoded with the transfer syntax of the context it is sent on")
     rep.rule("role-source", "as_scu / as_scp of every accepted context come from the role negotiation of that context (C11's every-context and normalisation rules)")
+    delegate(repo, rep, tier, "C11", ("iteration-independent", "complementary", "requestor-view"), "role-source", "the acceptor records a role on a context that the negotiation of that context did not give it (a value left over from the previous context): _get_valid_context then offers the context for sending although pynetdicom is not the SCU on it - a C-STORE sub-operation goes out on a context where the peer is not the SCP")
     delegate(repo, rep, tier, "C11", ("every-context", "normalisation"), "role-source", "_get_valid_context filters on as_scu / as_scp: with the proposed roles missing on a context the requestor believes it is SCU there, and a request goes out on a context where the local side does not hold the role")
 
     from ..lints import no_memoised_io
